@@ -862,9 +862,12 @@ func (g *gen) stmt(sc *scope, d int) string {
 				return v.name + " " + []string{"+=", "-=", "*=", "^=", "|=", "&=", "<<="}[g.intn(7, "aop")] + " " + g.smallOf(sc, v.t)
 			}
 		case kString:
+			// assignments to strings are bounded in length: `s += s` (or s = s + t with t growing the
+			// same way) inside three nested loops doubles the string 64 times
 			if g.chance(50, "sapp") {
-				return v.name + " += " + g.expr(sc, tString, 2)
+				return v.name + " += sub(" + g.expr(sc, tString, 2) + ", 0, 3)"
 			}
+			return v.name + " = sub(" + g.expr(sc, tString, 3) + ", 0, 24)"
 		case kSliceInt:
 			switch g.intn(3, "slform") {
 			case 0:
